@@ -139,6 +139,100 @@ def judge(st: Stats, hist: History, specs: List[Dict[str, Any]], schedule: Seque
                    "taxable rows": {r: f"{e['type']} {e['amount']}" for r, e in exp.items()}}, cap=1)
 
 
+# ---- the same through the whole front end (spreadsheet -> parse_ods -> compute_tax): acquisitions of every IN type that pay their fee in
+# crypto. RP2 models such a fee as a fee-typed disposal of the fee amount at the instant of the acquisition (a taxable event with lots).
+FE_SYMBOLS = (
+    [H.B(3, 1, typ=t, fee="1/4") for t in EARN + NON_EARN_IN]
+    + [H.E(3, 1, typ="MINING"), H.S(1, typ="SELL", price=5), H.M(2, 1, price=7), H.M(2, 0, price=7)]
+)
+
+
+def fe_cases(tier: str) -> List[Dict[str, Any]]:
+    import itertools
+
+    from rp2verif import frdriver as D
+
+    out = []
+    depth = 2 if tier == "quick" else 3
+    for n in range(1, depth + 1):
+        for seq in itertools.product(FE_SYMBOLS, repeat=n):
+            hist = ((FIRST[0], "="),) + tuple((s, "d") for s in seq)
+            for row_order in ("chrono", "reverse"):
+                specs = H.materialize(hist, row_order=row_order, uid=True)
+                if specs is None:
+                    continue
+                sheet, keyed = D.to_sheet(specs, "B1")
+                for m in ("fifo", "hifo"):
+                    out.append({"label": f"{m}, rows {row_order}: {H.hist_str(hist)}", "hist": hist, "row_order": row_order, "assets": {"B1": keyed}, "sheets": {"B1": sheet},
+                                "schedule": [(1970, m)], "from": None, "to": None, "country": "us", "lang": "en", "reports": [], "allow_negative": False})
+    return out
+
+
+def fe_judge(st: Stats, case: Dict[str, Any]) -> None:
+    from rp2verif.seams import generator as G
+
+    st.inc("evaluations")
+    st.inc("front_end_evaluations")
+    res = G.run(case)
+    payload = {"front_end": {"hist": case["hist"], "row_order": case["row_order"], "method": case["schedule"][0][1]}}
+    if res["error"]:
+        st.violation(dict(payload, signature=f"C03 front end: valid history rejected / {res['error'].split(':')[0]}", what=f"{case['label']} :: {res['stage']}: {res['error'][:200]}"))
+        return
+    specs = case["assets"]["B1"]
+    D = res["dumps"]["B1"]
+    # expected multiset of taxable events (table, type, instant, crypto amount), from the input rows and the independent table
+    want: List[Tuple[str, str, str, Fraction]] = []
+    for s in specs:
+        from rp2verif.models.lots import parse_ts
+
+        ts = parse_ts(s["timestamp"]).isoformat()
+        if s["table"] == "in":
+            t = s["transaction_type"].upper()
+            if t in EARN:
+                want.append(("IN", t, ts, F(s["crypto_in"])))
+            if F(s.get("crypto_fee") or 0) > 0:
+                want.append(("OUT", "FEE", ts, F(s["crypto_fee"])))
+        elif s["table"] == "out":
+            want.append(("OUT", s["transaction_type"].upper(), ts, F(s["crypto_out_no_fee"]) + F(s.get("crypto_fee") or 0)))
+        elif F(s["crypto_sent"]) != F(s["crypto_received"]):
+            want.append(("INTRA", "MOVE", ts, F(s["crypto_sent"]) - F(s["crypto_received"])))
+    got: Dict[Tuple[str, int], List[Any]] = {}
+    for r in D["detail"]:
+        k = (r["event_table"], r["event"])
+        g = got.setdefault(k, [r["event_table"], r["type"].upper(), r["event_ts"].isoformat(), Fraction(0), 0, r["lot"] is not None])
+        g[3] += r["amount"]
+        g[4] += 1
+    got_list = sorted((g[0], g[1], g[2], g[3]) for g in got.values())
+    problems: List[str] = []
+    if got_list != sorted(want):
+        missing = [w for w in sorted(want) if w not in got_list]
+        extra = [g for g in got_list if g not in want]
+        problems.append(f"taxed events differ from the taxable input: missing {[(a, b, c[:10], str(d)) for a, b, c, d in missing]}, unexpected {[(a, b, c[:10], str(d)) for a, b, c, d in extra]}")
+    for g in got.values():
+        if g[0] == "IN" and (g[4] != 1 or g[5]):
+            problems.append(f"earn event {g[1]} at {g[2]} reported in {g[4]} entries / with a lot")
+    if sorted(D["taxable"]) != sorted(k[1] for k in got):
+        problems.append(f"taxable event set rows {sorted(D['taxable'])} != rows with gain/loss entries {sorted(k[1] for k in got)}")
+    if problems:
+        st.violation(dict(payload, signature=f"C03 front end / {problems[0].split(':')[0][:50]}", what=f"{case['label']} :: {problems[0]}", problems=problems[:5]))
+    elif len(want) >= 3:
+        st.inc("distinct_nontrivial")
+        st.sample({"front end": case["label"], "taxable events": [f"{a}/{b} {d}" for a, b, _c, d in sorted(want)]}, cap=1)
+
+
+def fe_worker(chunk: List[Dict[str, Any]]) -> Stats:
+    st = Stats()
+    for c in chunk:
+        fe_judge(st, c)
+    return st
+
+
+def fe_init() -> None:
+    from rp2verif.props import c13
+
+    c13.init()
+
+
 def plan(tier: str) -> List[Dict[str, Any]]:
     sch = [((1970, "fifo"),), ((1970, "hifo"),)]
     if tier == "quick":
@@ -158,6 +252,17 @@ def main(tier: str, budget_s: Optional[float] = None) -> int:
     t0 = time.time()
     deadline = t0 + (budget_s or (180 if tier == "quick" else 1800))
     total, info, complete = run_phases(plan(tier), generic_worker, FIRST, SYMBOLS, EXTRA, deadline, __name__)
+    fe = fe_cases(tier)
+    n = max(1, min(len(fe), common.NPROC * 4))
+    chunks = [fe[i::n] for i in range(n)]
+    tf = time.time()
+    results, done = common.pmap(fe_worker, chunks, deadline=max(deadline, time.time() + 60), init=fe_init)
+    for r in results:
+        if r is not None:
+            total.merge(r)
+    complete = complete and done == len(chunks)
+    info.append({"phase": "front end (spreadsheet -> parse_ods -> compute_tax): acquisitions of every IN type paying a crypto fee", "cases": len(fe),
+                 "executions": total.get("front_end_evaluations"), "alphabet": [H.sym_str(x) for x in FE_SYMBOLS], "complete": done == len(chunks), "wall_s": round(time.time() - tf, 1)})
     new, matched = common.report(PROP, total.violations)
     coverage = {
         "evaluations": total.get("evaluations"),
@@ -186,6 +291,28 @@ def main(tier: str, budget_s: Optional[float] = None) -> int:
 
 
 def replay(path: str) -> int:
-    from rp2verif.lotrun import replay_compute
+    import json
 
+    from rp2verif.lotrun import _to_tuple, replay_compute
+
+    with open(path, encoding="utf-8") as f:
+        p = json.load(f)
+    if "front_end" in p:
+        import multiprocessing as mp
+
+        from rp2verif import frdriver as D
+
+        fe = p["front_end"]
+        hist = _to_tuple(fe["hist"])
+        specs = H.materialize(hist, row_order=fe["row_order"], uid=True)
+        sheet, keyed = D.to_sheet(specs, "B1")
+        case = {"label": f"{fe['method']}, rows {fe['row_order']}: {H.hist_str(hist)}", "hist": hist, "row_order": fe["row_order"], "assets": {"B1": keyed}, "sheets": {"B1": sheet},
+                "schedule": [(1970, fe["method"])], "from": None, "to": None, "country": "us", "lang": "en", "reports": [], "allow_negative": False}
+        with mp.get_context("fork").Pool(1, initializer=fe_init) as pool:
+            st = pool.apply(fe_worker, ([case],))
+        if st.violations:
+            print(f"VIOLATION property={PROP} replay={path}\n  {st.violations[0]['what']}")
+            return 1
+        print(f"replay: {path}: property {PROP} holds on this case")
+        return 0
     return replay_compute(__name__, path)
